@@ -657,6 +657,10 @@ class FixedRowWriter(AbstractRowWriter):
         self.location.advance_line()
 
 
+#: Maximum number of characters an Excel cell can hold.
+_MAX_EXCEL_TEXT_LENGTH = 32767
+
+
 class XlsxRowWriter(AbstractRowWriter):
     """
     A writer for Excel 2007+ (:file:`*.xlsx`) documents.
@@ -715,6 +719,14 @@ class XlsxRowWriter(AbstractRowWriter):
         assert row_to_write is not None
 
         row_index = self.location.line
+        for item in row_to_write:
+            # Refuse the row before anything is written because xlsxwriter would silently truncate the text.
+            if isinstance(item, str) and len(item) > _MAX_EXCEL_TEXT_LENGTH:
+                raise errors.DataFormatError(
+                    "cannot write data row: text for an Excel cell must have at most %d characters but has %d"
+                    % (_MAX_EXCEL_TEXT_LENGTH, len(item)),
+                    self.location,
+                )
         for item in row_to_write:
             assert item is not None
             assert not isinstance(item, bytes), "item must be a string: %r" % item
